@@ -388,3 +388,142 @@ Proof.
                 (ex_intro _ i (conj Hi (nth_prog_repeat c n i Hn)))).
   lia.
 Qed.
+
+(* ---- admission-level view: presentations on the path of another topic ---- *)
+Lemma is_win_view c o w x : is_win c o (view_out w x) = true -> is_win c o x = true.
+Proof. destruct w; [|exact (fun H => H)]. destruct x; cbn; try (intros H; exact H). destruct o; discriminate. Qed.
+
+Lemma admissions_le_wins c ops : forall s, (admissions c s ops <= wins c s (map snd ops))%nat.
+Proof.
+  induction ops as [|[w o] r IH]; intros s; [cbn; lia|].
+  cbn [admissions wins map snd]. specialize (IH (fst (step s o))).
+  destruct (is_win c o (view_out w (snd (step s o)))) eqn:V.
+  - rewrite (is_win_view _ _ _ _ V). lia.
+  - destruct (is_win c o (snd (step s o))); lia.
+Qed.
+
+Lemma admissions_at_most_once t l ops c : fresh (map snd ops) -> (admissions c (init t l) ops <= 1)%nat.
+Proof.
+  intros F. pose proof (admissions_le_wins c ops (init t l)). pose proof (exchange_at_most_once t l _ c F). lia.
+Qed.
+
+Lemma wrong_path_never_joins c o x : is_win c o (view_out true x) = false.
+Proof. destruct x; destruct o; reflexivity. Qed.
+
+(* a code that has been presented once - successfully or not, on whatever path - is dead *)
+Lemma exchange_removes s c : clk c (store (fst (step s (Exchange c)))) = None.
+Proof.
+  cbn [step]. destruct (clk c (store s)) eqn:L; sim; [apply lookup_remove_eq; exact E|exact L].
+Qed.
+
+Lemma presented_code_dead t0 life ops1 c ops2 :
+  submits c ops2 = 0%nat ->
+  snd (step (final (init t0 life) (ops1 ++ Exchange c :: ops2)) (Exchange c)) = ORefused.
+Proof.
+  intros H2. apply exchange_absent_refused. rewrite final_app, final_cons.
+  apply gone_stays_gone; [apply inv_step, inv_final, inv_init|exact H2|apply exchange_removes].
+Qed.
+
+(* ---- a schedule is a history: every theorem about histories speaks about every interleaving ---- *)
+Lemma run_sched_is_run sched : forall s progs,
+  fst (run_sched s progs sched) = final s (trace_ops (snd (run_sched s progs sched))) /\
+  map snd (snd (run_sched s progs sched)) = snd (run s (trace_ops (snd (run_sched s progs sched)))).
+Proof.
+  induction sched as [|i rest IH]; intros s progs; [split; reflexivity|].
+  cbn [run_sched]. destruct (nth_prog progs i) as [[o progs']|]; [|apply IH].
+  destruct (step s o) as [s1 x] eqn:Es. specialize (IH s1 progs').
+  destruct (run_sched s1 progs' rest) as [s2 tr] eqn:Er. cbn [fst snd] in *.
+  cbn [trace_ops map fst snd]. fold (trace_ops tr). rewrite final_cons. cbn [run]. rewrite Es. cbn [fst].
+  destruct IH as [I1 I2]. split; [exact I1|].
+  destruct (run s1 (trace_ops tr)) as [s3 xs]. cbn [snd] in *. rewrite I2. reflexivity.
+Qed.
+
+Lemma nth_prog_in progs : forall i o progs',
+  nth_prog progs i = Some (o, progs') -> In o (concat progs) /\ incl (concat progs') (concat progs).
+Proof.
+  induction progs as [|p r IH]; intros i o progs' H; [destruct i; discriminate|].
+  destruct i as [|j]; cbn [nth_prog] in H.
+  - destruct p as [|o1 p1]; [discriminate|]. inversion H; subst. cbn [concat]. split; [left; reflexivity|].
+    intros x Hx. right. exact Hx.
+  - destruct (nth_prog r j) as [[o1 r1]|] eqn:N1; [|discriminate]. inversion H; subst.
+    destruct (IH _ _ _ N1) as [Hin Hincl]. cbn [concat]. split; [apply in_or_app; right; exact Hin|].
+    intros x Hx. apply in_app_or in Hx. apply in_or_app. destruct Hx as [Hx|Hx]; [left; exact Hx|right; apply Hincl; exact Hx].
+Qed.
+
+Lemma trace_ops_in sched : forall s progs o,
+  In o (trace_ops (snd (run_sched s progs sched))) -> In o (concat progs).
+Proof.
+  induction sched as [|i rest IH]; intros s progs o H; [destruct H|].
+  cbn [run_sched] in H. destruct (nth_prog progs i) as [[o1 progs']|] eqn:N1; [|eapply IH; exact H].
+  destruct (step s o1) as [s1 x]. specialize (IH s1 progs' o).
+  destruct (run_sched s1 progs' rest) as [s2 tr]. cbn [snd trace_ops map fst] in *.
+  destruct (nth_prog_in _ _ _ _ N1) as [Hin Hincl].
+  destruct H as [<-|H]; [exact Hin|apply Hincl, IH, H].
+Qed.
+
+(* ---- what is left after a run: explainable by the operations that completed ---- *)
+Lemma win_then_gone c ops : forall s, Inv s -> submits c ops = 0%nat ->
+  (1 <= wins c s ops)%nat -> clk c (store (final s ops)) = None.
+Proof.
+  induction ops as [|o r IH]; intros s I Hs Hw; [cbn in Hw; lia|].
+  apply submits_zero_cons in Hs. destruct Hs as [Ho Hr]. cbn [wins] in Hw. rewrite final_cons.
+  destruct (is_win c o (snd (step s o))) eqn:W.
+  - destruct o as [c' t b|c'| |b|dt|]; cbn [is_win] in W; try discriminate.
+    destruct (snd (step s (Exchange c'))); try discriminate. apply N.eqb_eq in W. subst c'.
+    apply gone_stays_gone; [apply inv_step; exact I|exact Hr|apply exchange_removes].
+  - apply IH; [apply inv_step; exact I|exact Hr|lia].
+Qed.
+
+Lemma purged_stays_purged ops : forall s b, Inv s -> (forall c, submits c ops = 0%nat) -> In (Purge b) ops ->
+  forall c e, clk c (store (final s ops)) = Some e -> bk e <> b.
+Proof.
+  intros s b I Hs Hin c e L. apply in_split in Hin. destruct Hin as [l1 [l2 ->]].
+  rewrite final_app, final_cons in L.
+  assert (H2 : submits c l2 = 0%nat).
+  { specialize (Hs c). rewrite submits_app, submits_cons in Hs. cbn [is_submit] in Hs. lia. }
+  set (s1 := final s l1) in *. assert (I1 : Inv s1) by (apply inv_final; exact I).
+  destruct (lookup_final_stable (fst (step s1 (Purge b))) l2 c (inv_step _ _ I1) H2) as [Hn|He]; [congruence|].
+  rewrite He in L. eapply purge_kills_booking; [exact I1|exact L].
+Qed.
+
+Lemma spared_kept c e ops : forall s, Inv s -> clk c (store s) = Some e -> (now s <= exp e)%Z ->
+  forallb (spares c e) ops = true -> clk c (store (final s ops)) = Some e /\ now (final s ops) = now s.
+Proof.
+  induction ops as [|o r IH]; intros s I L X F; [split; [exact L|reflexivity]|].
+  cbn [forallb] in F. apply andb_true_iff in F. destruct F as [Fo Fr]. rewrite final_cons.
+  assert (clk c (store (fst (step s o))) = Some e /\ now (fst (step s o)) = now s) as [L1 N1].
+  { destruct o as [c' t b|c'| |b|dt|]; cbn [spares] in Fo; try discriminate.
+    - apply negb_true_iff, N.eqb_neq in Fo. split; [rewrite submit_frame by congruence; exact L|reflexivity].
+    - apply negb_true_iff, N.eqb_neq in Fo. split; [rewrite exchange_frame by congruence; exact L|].
+      cbn [step]. destruct (clk c' (store s)); reflexivity.
+    - split; [apply sweep_frame; assumption|reflexivity].
+    - apply negb_true_iff, N.eqb_neq in Fo. split; [|reflexivity].
+      rewrite purge_frame; [exact L|exact I|]. intros e' L'. rewrite L in L'. inversion L'; subst. congruence.
+    - split; [exact L|reflexivity]. }
+  destruct (IH (fst (step s o)) (inv_step _ _ I) L1 ltac:(lia) Fr) as [L2 N2]. split; [exact L2|lia].
+Qed.
+
+(* every schedule of threads that exchange, purge, sweep and count (no thread issues codes): a code whose
+   exchange succeeded is gone, no code of a purged booking is left, and a code nobody presented, of a
+   booking nobody purged, is still there with its own entry *)
+Lemma concurrent_final_state_consistent t0 life pre progs sched :
+  let s := final (init t0 life) pre in
+  let r := run_sched s progs sched in
+  (forall c, submits c (concat progs) = 0%nat) ->
+  (forall c, (1 <= trace_wins c (snd r))%nat -> clk c (store (fst r)) = None) /\
+  (forall b, In (Purge b) (trace_ops (snd r)) -> forall c e, clk c (store (fst r)) = Some e -> bk e <> b) /\
+  (forall c e, clk c (store s) = Some e -> (now s <= exp e)%Z -> forallb (spares c e) (concat progs) = true ->
+     clk c (store (fst r)) = Some e).
+Proof.
+  intros s r Hs.
+  assert (I : Inv s) by (apply inv_final, inv_init).
+  destruct (run_sched_is_run sched s progs) as [Hf _]. fold r in Hf.
+  assert (Hts : forall c, submits c (trace_ops (snd r)) = 0%nat).
+  { intros c. pose proof (trace_submits_le c sched s progs). fold r in H. specialize (Hs c). lia. }
+  split; [|split].
+  - intros c Hw. rewrite Hf. apply win_then_gone; [exact I|apply Hts|].
+    unfold r in *. rewrite <- trace_wins_is_wins. exact Hw.
+  - intros b Hin c e L. rewrite Hf in L. eapply purged_stays_purged; [exact I|exact Hts|exact Hin|exact L].
+  - intros c e L X F. rewrite Hf. apply (spared_kept c e); try assumption.
+    apply forallb_forall. intros o Ho. apply (proj1 (forallb_forall _ _) F). eapply trace_ops_in. exact Ho.
+Qed.
